@@ -39,6 +39,7 @@ class Result:
         self.state = {}        # bb -> env at block entry
         self.exit_env = {}     # bb -> env before the terminator
         self.switches = {}     # bb -> (discr term, [targets followed])
+        self.switch_arms = {}  # bb -> (effective [(value, target)], otherwise) in terms of the recorded discr term
         self.recur = {}        # (header, local) -> set of back-edge terms
         self.recur_edges = {}  # (header, local) -> list of (back-edge term, path facts on that edge)
         self.init = {}         # (header, local) -> term on loop entry
@@ -64,6 +65,13 @@ class Result:
             else:
                 st.extend(children(x))
         return out
+
+    def switch_target(self, bb, value):
+        arms, other = self.switch_arms[bb]
+        for v, tgt in arms:
+            if v == value:
+                return tgt
+        return other
 
     def call_sites(self, pred=None):
         for bb, c in sorted(self.calls.items()):
@@ -192,6 +200,7 @@ class Opa:
                     t = {'t': 'switch', 'discr': t['discr'], 'arms': arms, 'otherwise': other}
                 edges = self.decide_switch(d, t, env, seeds)
                 res.switches[bb] = (d, [e[0] for e in edges])
+                res.switch_arms[bb] = ([(int(v), tgt) for v, tgt in t['arms']], t['otherwise'])
             elif k == 'assert':
                 cond = self.collapse(self.operand(t['cond'], env), env) or TOP
                 ops = {}
